@@ -44,7 +44,8 @@ def build_jobs(prop, tier, seed, names, include_points=False, zero_cap_stream=Tr
                                       "big": c % 4 == 3, "allow_all_zero": True},
                              "points": 0.15 if include_points else 0.03,
                              "deadline_s": 150 if q else 900},
-                            mode=mode, timeout=400 if q else 1500, tag="rnd:%s:%d" % (mode, c)))
+                            mode=mode, timeout=400 if q else 1500, tag="rnd:%s:%d" % (mode, c),
+                            stall_s=60 if mode == "jit" else None))
     # deep-arity stream: types whose behaviour depends on longer structure, on narrow overlapping domains
     deep = [n for n in ("lexicographic_leq", "alldifferent", "gcc", "element_liv", "element_lic", "relation",
                         "no_sub_cycle", "scc", "count_eq", "exactly_eq", "max_eq", "min_eq") if n in names]
@@ -72,7 +73,22 @@ def aggregate(rep, jobs, names):
     truncated = 0
     for j in jobs:
         if j.status != "ok":
-            rep.job_problem(j)
+            if j.status == "timeout" and j.stalled_case and "call" in j.stalled_case:
+                # watchdog protocol: replay the call the child stalled on under the line budget (plane A)
+                rj = Job("framework.props.calls", "replay_call", {"prop": rep.prop, "call": j.stalled_case["call"]},
+                         mode="interp", timeout=300)
+                common.run_jobs([rj])
+                rep.count("stalled_jobs")
+                if rj.status == "ok" and rj.result["fails"]:
+                    for f in rj.result["fails"]:
+                        rep.violation(dict(f, where="replay of the call a %s child stalled on" % j.mode))
+                elif rj.status == "ok":
+                    rep.inconclusive.append("a %s child stalled on call %r which completes under interpretation" % (
+                        j.mode, j.stalled_case["call"]))
+                else:
+                    rep.job_problem(j)
+            else:
+                rep.job_problem(j)
             continue
         r = j.result
         rep.evaluations += r["evals"]
